@@ -202,7 +202,7 @@ def run(ctx):
     # R11.3
     A = loops.lifecycle_alphabet()
     A.upvar_bools = True
-    n = nfa.build(lb, A)
+    n = nfa.build(lb, A, fx, depth=2)
     viols, ps = nfa.check(n, LoopTimeout("bool:upvar%d" % f_idx[0]))
     ctx.count_nfa(n.stats(), ps)
     for v in viols:
